@@ -81,8 +81,9 @@ class Session:
             # leave their IOs behind
             sps = [""] + [x.path() for x in m.all_spaces()]
             for i in range(rng.choice([1, 1, 2])):
+                ppath = "files/pd%d.csv" % (i + 1)
                 extra.append({"op": "set_ref", "space": rng.choice(sps), "name": "pd%d" % (i + 1),
-                              "value": {"t": "frame", "v": [rng.randrange(100), 7]}, "pandas_path": "files/pd%d.csv" % (i + 1)})
+                              "value": {"t": "frame", "v": [rng.randrange(100), 7]}, "pandas_path": ppath})
         for op in extra:
             mach.do(op)
         # a query set, some of it inside ItemSpaces, and ItemSpace inputs
@@ -154,10 +155,17 @@ class Session:
             probe.Bomb.ARM["load"] = 1
             probe.Bomb.FIRED["load"] = 0
         try:
+            if mx.cur_model() is None and mx.get_models():
+                mx.cur_model(sorted(mx.get_models())[0])     # (the user is working in one of the open models)
+            cur0 = mx.cur_model()
             try:
                 kw = {"name": name} if name else {}
                 return mx.read_model(path, **kw), None
             except BaseException as e:
+                # a failed load leaves the session as it was: the model the user was working in is still the current one
+                cur1 = mx.cur_model()
+                if cur0 is not None and any(cur0 is x for x in mx.get_models().values()) and cur1 is not cur0:
+                    self.lost_current = (cur0.name, getattr(cur1, "name", None))
                 return None, e
         finally:
             if pk:
@@ -567,6 +575,11 @@ def run_c14_steps(ctx, ses, plan_steps):
                     raise Violation("C14/half-loaded-model-left-registered", {"before": models0, "after": sorted(mx.get_models())})
                 if mx.core.mxsys.serializing is not None:
                     raise Violation("C14/serializing-flag-left-set/load-failed", {})
+                lost = getattr(ses, "lost_current", None)
+                ses.lost_current = None
+                if lost is not None:
+                    raise Violation("C14/failed-load-changed-the-current-model", {"before": lost[0], "after": lost[1]})
+                ctx.count("current_model_checked_after_failed_load", 1, "reach")
                 io_residue("load-failed")
                 usable(ctx, ses, m)
             else:
@@ -601,6 +614,14 @@ def io_residue(what):
         grp = key[0] if isinstance(key, tuple) and key else None
         if grp is not None and not any(grp is m for m in open_models):
             raise Violation("C14/io-of-a-closed-model-left-registered/" + what, {"model": getattr(grp, "name", "?"), "path": str(key[1])})
+        if grp is None:
+            # a file at an absolute path belongs to no model in particular: one of the open models has to hold a spec of it
+            specs = getattr(ios[key], "specs", None)
+            if specs is None:
+                continue
+            held = [s for m in open_models for s in m.iospecs]
+            if not any(any(s is h for h in held) for s in specs):
+                raise Violation("C14/io-of-no-open-model-left-registered/" + what, {"path": str(key[1])})
 
 
 def strip_gen(d):
